@@ -40,17 +40,17 @@ def exc1(cfg):
     res.count('operation entry points', len(es))
     seen_sites = set()
     analysed = set()
+    own = []
     for f in es:
         if f.cls == 'unodb::qsbr_per_thread' and f.short == 'on_next_epoch_deallocate':
             # its own entry: analysed unpruned
             an2 = effectflow.Effects(cfg)
             s = an2.summary(f)
-            used = an2
+            own.append(an2)
         else:
             s = an.summary(f)
-            used = an
         res.functions.add(f.sig)
-    for used in (an,):
+    for used in [an] + own:
         for sig, s in used.summ.items():
             analysed.add(sig)
             for (g, loc, alloc, why) in s.violations:
@@ -272,4 +272,177 @@ def exc5(cfg):
     res.count('functions between entry points and fault points', n)
     res.floor('operation entry points', 12)
     res.floor('functions between entry points and fault points', 30)
+    return res
+
+
+def exc6(cfg):
+    """EXC-6: a deferred-deallocation request that fails leaves the thread's QSBR state as it was"""
+    from ..engine import forward
+    res = RuleResult('EXC-6', 'qsbr_per_thread::on_next_epoch_deallocate: on every path, no call that can fail with an exception (allocation-capable per the whole-program call graph and not noexcept) is made after the per-thread QSBR state has been changed (last seen epoch advanced, request lists rotated / executed, pending size updated) - the append that files the request is the last fallible step, so a request that fails with bad_alloc leaves epochs, lists and pending bytes exactly as before and can simply be repeated')
+    an = effectflow.Effects(cfg)
+    alloc = an.may_alloc_set()
+    cgm = cfg.callgraph()[1]
+    n = 0
+    for f in cfg.functions:
+        if not f.blocks or f.cls != 'unodb::qsbr_per_thread' or f.short != 'on_next_epoch_deallocate':
+            continue
+        res.functions.add(f.sig)
+        sites = {}
+
+        def is_this_member(o):
+            x = f.strip_casts(o)
+            return isinstance(x, dict) and x.get('k') == 'member' and isinstance(f.strip_casts(x.get('base')), dict) and f.strip_casts(x['base']).get('k') == 'this'
+
+        def changes_state(e):
+            k = e.get('k')
+            if k in ('binop', 'compound') and e.get('op') in ('=', '+=', '-=') and is_this_member(e['l']):
+                return 'store to %s' % f.strip_casts(e['l']).get('name')
+            if k == 'unop' and e.get('op') in ('++', '--') and is_this_member(e['sub']):
+                return 'update of %s' % f.strip_casts(e['sub']).get('name')
+            if k == 'call' and not is_assert_elem(e):
+                obj = e.get('obj')
+                if e.get('ck') == 'op' and e.get('args'):
+                    obj = e['args'][0]
+                if obj is not None:
+                    x = f.strip_casts(obj)
+                    if isinstance(x, dict) and x.get('k') == 'this' and e.get('cid') is not None:
+                        m = f.tu.cg.get(e['cid']) or {}
+                        if not (m.get('const') or (m.get('sig') or '').rstrip().endswith('const')):
+                            return 'call of %s()' % e.get('name')
+                    if is_this_member(obj) and e.get('name') in ('emplace_back', 'push_back', 'clear', 'operator=', 'swap', 'reset', 'insert', 'erase', 'pop_back', 'resize'):
+                        return '%s on %s' % (e.get('name'), x.get('name'))
+            return None
+
+        def can_fail(e):
+            if e.get('k') == 'throw':
+                return 'throw'
+            if e.get('k') not in ('call', 'new') or e.get('cid') is None or is_assert_elem(e):
+                return None
+            cs = f.callee_sig(e)
+            m = cgm.get(cs) or {}
+            if cs in alloc and not m.get('nothrow'):
+                return sh(cs)[:70]
+            return None
+
+        def transfer(st, blk):
+            for e in blk['elems']:
+                cf = can_fail(e)
+                if cf is not None:
+                    key = (e.get('loc'), cf)
+                    sites[key] = sites.get(key) or st
+                ch = changes_state(e)
+                if ch is not None and not st:
+                    st = ch
+            return st
+        forward(f, '', transfer, None, lambda a, b2: a or b2, key=lambda s: bool(s))
+        for (loc, cf), after in sorted(sites.items(), key=str):
+            n += 1
+            ok = not after
+            res.ob(ok, {'rule': 'EXC-6', 'site': fileline(loc), 'fault_point': cf, 'verdict': 'discharged' if ok else 'VIOLATION (after %s)' % after})
+            if not ok:
+                res.find(f, loc, 'on_next_epoch_deallocate: %s can fail with an exception after the thread\'s QSBR state has been changed (%s): the caller sees bad_alloc, but the last seen epoch has advanced, the request lists have been rotated / executed and the pending size reset - the failed request has left a trace, and the index / reclamation state differs from before the call' % (cf, after), key='EXC-6:%s' % cf[:40], config=cfg.name)
+    res.count('fallible steps of a deferred-deallocation request', n)
+    res.floor('fallible steps of a deferred-deallocation request', 2)
+    return res
+
+
+def heap1(cfg):
+    """HEAP-1: a failed allocation is reported as std::bad_alloc"""
+    res = RuleResult('HEAP-1', 'allocate_aligned, the one allocator under every leaf and inner node: in the case "posix_memalign reported failure" (its result is non-zero and, per POSIX, the output pointer is left indeterminate) no path reaches the return statement - the pointer is set to null under the error test and the null test throws std::bad_alloc; case walk over {call succeeded, call failed} with the pointer tracked as valid / null / indeterminate. Every strong-guarantee argument (EXC-1..5) starts from "an allocation that fails throws"')
+    n = 0
+    for f in cfg.functions:
+        if not f.blocks or f.short != 'allocate_aligned' or f.basefile != 'heap.hpp':
+            continue
+        calls = [(b, i, e) for b, i, e in f.elements() if e.get('k') == 'call' and e.get('name') == 'posix_memalign']
+        if len(calls) != 1:
+            res.incompl('HEAP-1: allocate_aligned does not make exactly one posix_memalign call (another allocator is compiled on this platform?)')
+            continue
+        cb, ci, ce = calls[0]
+        a0 = f.strip_casts(ce['args'][0])
+        if not (isinstance(a0, dict) and a0.get('k') == 'unop' and a0.get('op') == '&' and f.ref_of(a0['sub'])):
+            res.incompl('HEAP-1: the output argument of posix_memalign is not the address of a local')
+            continue
+        pvar = f.ref_of(a0['sub'])[0]
+        errvar = None
+        for b, i, e in f.elements():
+            if e.get('k') == 'decl':
+                for v in e['vars']:
+                    if 'init' in v and f.resolve(v['init']) is ce:
+                        errvar = v['did']
+        res.functions.add(f.sig)
+        for case in ('ok', 'failed'):
+            n += 1
+            # walk from the call: env = pointer state
+            start_ptr = 'valid' if case == 'ok' else 'indeterminate'
+            seen = set()
+            work = [(cb, ci + 1, start_ptr)]
+            returns = []
+            throws = 0
+            unknown = []
+            while work:
+                b, i0, ptr = work.pop()
+                if (b, i0, ptr) in seen:
+                    continue
+                seen.add((b, i0, ptr))
+                blk = f.blocks[b]
+                stop = False
+                for i in range(i0, len(blk['elems'])):
+                    e = blk['elems'][i]
+                    if e.get('k') == 'binop' and e.get('op') == '=' and f.ref_of(e['l']) and f.ref_of(e['l'])[0] == pvar:
+                        r = f.strip_casts(e['r'])
+                        ptr = 'null' if isinstance(r, dict) and r.get('k') == 'nullptr' else 'indeterminate'
+                    elif e.get('k') == 'throw':
+                        throws += 1
+                        stop = True
+                        break
+                    elif e.get('k') == 'return':
+                        returns.append((e.get('loc'), ptr))
+                        stop = True
+                        break
+                if stop:
+                    continue
+                ss = f.succs(b)
+                if len(ss) == 2 and blk.get('cond') is not None:
+                    o, neg = f.strip_test(blk['cond'])
+                    c = f.resolve(o)
+                    val = None
+                    if isinstance(c, dict) and c.get('k') == 'binop' and c.get('op') in ('==', '!='):
+                        l, r = f.strip_casts(c['l']), f.strip_casts(c['r'])
+                        for x, y in ((l, r), (r, l)):
+                            if isinstance(x, dict) and x.get('k') == 'ref' and x.get('did') == errvar and isinstance(y, dict) and y.get('k') == 'int' and y.get('v') == '0':
+                                val = (case == 'ok') == (c['op'] == '==')
+                            if isinstance(x, dict) and x.get('k') == 'ref' and x.get('did') == pvar and isinstance(y, dict) and y.get('k') == 'nullptr':
+                                if ptr == 'null':
+                                    val = c['op'] == '=='
+                                elif ptr == 'valid':
+                                    val = c['op'] == '!='
+                                else:
+                                    val = 'both'
+                    if val is None:
+                        unknown.append(fileline(blk.get('termloc') or f.loc))
+                        val = 'both'
+                    if val == 'both':
+                        work.extend((s, 0, ptr) for s in ss if s is not None)
+                    else:
+                        take = bool(val) != neg
+                        s = ss[0] if take else ss[1]
+                        if s is not None:
+                            work.append((s, 0, ptr))
+                else:
+                    work.extend((s, 0, ptr) for s in ss if s is not None)
+            if case == 'failed':
+                ok = not returns and throws >= 1
+                if returns and unknown:
+                    res.incompl('HEAP-1: a condition of allocate_aligned could not be decided in the failure case (%s)' % unknown[0])
+                    continue
+                res.ob(ok, {'rule': 'HEAP-1', 'case': 'posix_memalign failed', 'returns_reached': [fileline(l) + ' with a pointer that is ' + p for l, p in returns], 'throws_reached': throws, 'verdict': 'discharged' if ok else 'VIOLATION'})
+                if not ok:
+                    res.find(f, returns[0][0] if returns else f.loc, 'allocate_aligned: when posix_memalign fails, %s - POSIX leaves the output pointer indeterminate on failure, so the caller builds a node at a garbage (or already live) address instead of seeing std::bad_alloc: the failed insert is not reported and memory is corrupted' % ('the return statement is reached with a pointer that is ' + returns[0][1] if returns else 'no std::bad_alloc is thrown'), key='HEAP-1:failure-returns', config=cfg.name)
+            else:
+                ok = any(p == 'valid' for l, p in returns)
+                res.ob(ok, {'rule': 'HEAP-1', 'case': 'posix_memalign succeeded', 'verdict': 'discharged' if ok else 'VIOLATION'})
+                if not ok:
+                    res.find(f, f.loc, 'allocate_aligned: when posix_memalign succeeds the function does not return the allocated pointer', key='HEAP-1:success', config=cfg.name)
+    res.count('allocator cases', n)
+    res.floor('allocator cases', 2)
     return res
